@@ -432,3 +432,20 @@ Proof. exact Proofs.FnAccessDispatch.source_dispatch. Qed.
 Theorem C13_source_dispatch_keep : forall (drop_fn : Z -> Z) (scanned : Z),
   Gen.FnAccessDispatch.fn_access_dispatch scanned false drop_fn = scanned.
 Proof. exact Proofs.FnAccessDispatch.source_dispatch_keep. Qed.
+
+(* ---- loop tie: ONE ITERATION of do_access' exclude loop ("for ex_fname in exclude_fnames: excluded = tabio.read(ex_fname,
+   'bed3'); access_regions = access_regions.subtract(excluded)"), translated from the Python source on every run
+   (Gen/FnAccessExclude.v fn_exclude_step; tables as opaque ids, .subtract a method on ids).  Under any reading of ids as the
+   region lists of one sequence in which .subtract is the model's exclude_one, the step folded over the exclude files is the
+   model's exclude_all *)
+From CNV Require Gen.FnAccessExclude Proofs.FnAccessExclude.
+
+Theorem C13_source_exclude_step : forall (tbl : Z -> list (Z * Z)) (sub : Z -> Z -> Z) (acc ex : Z),
+  Proofs.FnAccessExclude.subtract_is_model tbl sub ->
+  tbl (Gen.FnAccessExclude.fn_exclude_step acc ex sub) = Model.AccessPipe.exclude_one (tbl acc) (tbl ex).
+Proof. exact Proofs.FnAccessExclude.source_exclude_step. Qed.
+
+Theorem C13_source_exclude_loop : forall (tbl : Z -> list (Z * Z)) (sub : Z -> Z -> Z) (exs : list Z) (acc : Z),
+  Proofs.FnAccessExclude.subtract_is_model tbl sub ->
+  tbl (Proofs.FnAccessExclude.exclude_loop sub exs acc) = Model.AccessPipe.exclude_all (tbl acc) (map tbl exs).
+Proof. exact Proofs.FnAccessExclude.source_exclude_loop. Qed.
